@@ -180,8 +180,9 @@ def check_opts(chk, tables):
             pool = names[c][:3] + ['no_such_pattern']
             alts = [VecV(())] + [VecV([Str(a)]) for a in pool] + [VecV([Str(pool[1 % len(pool)]), Str(pool[0])])]
             # a name listed twice (also in another letter case) with further names behind it: every listed name counts, wherever it stands
-            alts += [VecV([Str(pool[0]), Str(pool[0]), Str(pool[1])]), VecV([Str(pool[1]), Str(pool[0]), Str(pool[1].upper()), Str(pool[2])]),
-                     VecV([Str(pool[0]), Str(pool[0].capitalize()), Str('no_such_pattern')])]
+            pk = lambda i: pool[i % len(pool)]          # (a table may hold fewer than three names)
+            alts += [VecV([Str(pk(0)), Str(pk(0)), Str(pk(1))]), VecV([Str(pk(1)), Str(pk(0)), Str(pk(1).upper()), Str(pk(2))]),
+                     VecV([Str(pk(0)), Str(pk(0).capitalize()), Str('no_such_pattern')])]
             lists[c] = Choice('list_' + c, alts)
         arg_path, toml_dir = Str(z3.String('arg_path')), Str(z3.String('toml_path'))
         args = Adt('Args', None, (some(arg_path) if has_path else NONE, some(Str('cfg.toml')) if has_toml else NONE))
